@@ -130,3 +130,6 @@ fn test() {
         "10..0"
     );
 }
+
+#[cfg(kani)]
+pub(crate) mod verif_kani;
